@@ -20,7 +20,7 @@ RULE = ("note values: the 80 documented values (10 bases x dots 0..4 plain + 10 
         "fractions, 0, negatives, inf, nan, each predicate run under a deterministic budget of 10**5 traced line events. "
         "Non-trivial: dotted or tuplet value; perturbed value with e != 0; pair containing a dotted/tuplet value; "
         "meter whose beat unit is a non-integer (incl. inf/nan) or >= 2**53."
-        ' Also: near-identical floats are analysed before each exact value; counts above 2**53 and arbitrary big integers; beat units given as exact Fraction / Decimal numbers; integer powers of two (and near misses) beyond the float range, up to 2**5000.')
+        ' Also: near-identical floats are analysed before each exact value; counts above 2**53 and arbitrary big integers; beat units given as exact Fraction / Decimal numbers; integer powers of two (and near misses) beyond the float range, up to 2**5000; values with 6-12 dots, which lie within 1% of the next shorter undotted value.')
 ASSUMPTIONS = [
     "values handed to mingus are the floats its own constructors (value.dots/triplet/quintuplet/septuplet) produce; "
     "the model computes with the exact rationals in vlib/ref/values.py",
@@ -96,7 +96,16 @@ def check_near(ctx, case):
     v = _build(ctx, base, dots, p, q)
     if failed(v):
         return ctx.note_case(False, ["near:construct-failed"])
-    x = v * (1.0 + e)
+    if isinstance(e, list):  # ["dots", n]: the next shorter base value (twice the number) with n dots - from 6 dots on its number lies
+        # within 1% above this undotted value, and is therefore analysed as this value
+        x = ctx.ok("dots", value.dots, base * 2, e[1])
+        if failed(x):
+            return ctx.note_case(False, ["near:construct-failed"])
+        e = x / v - 1.0
+        if not (0 < e <= 0.01):
+            return ctx.note_case(False, ["near:many-dots-outside-1%"])
+    else:
+        x = v * (1.0 + e)
     r = ctx.ok("determine", value.determine, x)
     if not failed(r):
         ctx.check(_analysis_is(r, base, dots, p, q), "determine/near",
@@ -257,6 +266,8 @@ def sub_near(ctx, shard, n):
     if shard == 0:
         ctx.exhaustive("perturbed values: 50 undotted/single-dotted centres x listed e", "e in %r" % NEAR_E, len(centres) * len(NEAR_E))
         ctx.enumerate("near", check_near, [c + [e] for c in centres for e in NEAR_E])
+        # many-dotted values of the next longer base: 6 dots and more fall inside the 1% window of an undotted value
+        ctx.enumerate("near", check_near, [c + [["dots", k]] for c in centres if c[1] == 0 and (c[2], c[3]) == (1, 1) for k in range(5, 13)])
     es = st.floats(-0.01, 0.01, allow_nan=False) | st.floats(-0.01, -0.001) | st.floats(0.001, 0.01)
     strat = st.tuples(st.sampled_from(centres), es).map(lambda t: t[0] + [t[1]])
     ctx.given("near", check_near, strat, 1500 if ctx.quick else 12500)
